@@ -108,7 +108,9 @@ def delay_cases(tier):
     wa = dag("fork", [8, 12, 9], [1, 0])
     wb = dag("chain2", [10, 8], [2])
     specs = [("normal", "LOW", 0.5, 20), ("normal", "HIGH", 0.3, 7),
-             ("poisson", "MID", 0.5, 20), ("uniform", "HIGH", 0.9, 3)]
+             ("poisson", "MID", 0.5, 20), ("uniform", "HIGH", 0.9, 3),
+             # seed 0 is a seed like any other
+             ("normal", "MID", 0.5, 0)]
     if tier == "thorough":
         specs += [("normal", "MID", 0.1, 1), ("poisson", "LOW", 0.7, 11),
                   ("uniform", "LOW", 0.5, 20)]
